@@ -140,8 +140,26 @@ pub fn judge_case(oracle: Oracle, name: &str, m0: &M, out: &Outcome, operand_mis
                 Some(f) => f,
                 None => return Verdict::fail(name, "unmodelled", "no footprint".into()),
             };
-            let unfired = operand_missing || matches!(refmodel::spec(name, m0), refmodel::Exp::Unfired);
-            let r = if unfired {
+            let sp = refmodel::spec(name, m0);
+            let unfired = operand_missing || matches!(sp, refmodel::Exp::Unfired);
+            // a guard that fails inside an instruction that otherwise applies (unknown node id, index out of
+            // range, ...): the documentation then leaves the non-stack components (graphs, bindings, flags,
+            // indices, messages) as they were; the reference encodes this as an outcome that does not touch them
+            let mut guard_fail: Option<(String, String)> = None;
+            if let refmodel::Exp::OneOf(v) | refmodel::Exp::OneOfOrUnfired(v) = &sp {
+                let mut may: Vec<Comp> = vec![];
+                for e in v {
+                    may.extend(m0.diff(e));
+                }
+                for c in m0.diff(got) {
+                    if matches!(c, Comp::Gr | Comp::Bind | Comp::Quote | Comp::Send | Comp::X | Comp::In | Comp::Out | Comp::Cfg) && !may.contains(&c) {
+                        guard_fail = Some((format!("guard-failed-effect:{:?}", c), format!("changed {:?} although no documented outcome for this state touches it", c)));
+                    }
+                }
+            }
+            let r = if let Some(g) = guard_fail {
+                Err(g)
+            } else if unfired {
                 refmodel::unfired_ok(&ft, m0, got).map_err(|e| ("unfired-effect".to_string(), e))
             } else {
                 let allowed = ft.allowed();
